@@ -168,7 +168,14 @@ pub fn ok_result(op: &str, max: usize) -> BoxedStrategy<MockRes> {
         "BMAP" | "LSEEK" => val_of_width(8).prop_map(MockRes::U64).boxed(),
         "POLL" => val_of_width(4).prop_map(|v| MockRes::U32(v as u32)).boxed(),
         "IOCTL" => (val_of_width(4), bytes(4096)).prop_map(|(r, data)| MockRes::Ioctl { result: r as u32 as i32, data }).boxed(),
-        "READDIR" | "READDIRPLUS" => dirents().prop_map(MockRes::Dirents).boxed(),
+        "READDIR" | "READDIRPLUS" => prop_oneof![
+            4 => dirents().prop_map(MockRes::Dirents),
+            1 => (dirents(), err_strategy()).prop_map(|(mut l, e)| {
+                l.truncate(6);
+                MockRes::DirentsThenErr(l, e)
+            }),
+        ]
+        .boxed(),
         _ => Just(MockRes::Default).boxed(),
     }
 }
@@ -339,7 +346,7 @@ pub fn run(c0: &Case) -> Outcome {
         }
     };
     out.class(format!("op:{}", op));
-    let is_err = matches!(c.res, MockRes::Err(_));
+    let is_err = matches!(c.res, MockRes::Err(_)) || fs.dir_returns.lock().unwrap().contains(&crate::mockfs::DIR_FAILED);
     out.class(if is_err { "result:err" } else { "result:ok" });
     out.nontrivial = !matches!(c.res, MockRes::Default);
     out.fails.extend(d.fails);
@@ -371,8 +378,16 @@ pub fn run(c0: &Case) -> Outcome {
     if r.unique != c.unique {
         out.fail(format!("encode/{}/unique", op), format!("unique {:#x} != {:#x}", r.unique, c.unique));
     }
+    let dir_failed = fs.dir_returns.lock().unwrap().contains(&crate::mockfs::DIR_FAILED);
     match &c.res {
-        MockRes::Err(e) => {
+        MockRes::DirentsThenErr(_, e) if !dir_failed => {
+            let _ = e;
+            out.class("dir:filled-before-error");
+        }
+        MockRes::Err(e) | MockRes::DirentsThenErr(_, e) => {
+            if dir_failed {
+                out.class("dir:error-after-entries");
+            }
             match e {
                 ErrSpec::Os(n) => {
                     if r.error != -*n {
@@ -569,7 +584,7 @@ pub fn run(c0: &Case) -> Outcome {
                 }
             }
         }
-        ("READDIR" | "READDIRPLUS", MockRes::Dirents(list)) => {
+        ("READDIR" | "READDIRPLUS", MockRes::Dirents(list) | MockRes::DirentsThenErr(list, _)) => {
             check_dir(&mut out, op, b, list, c.size as usize, &fs.dir_returns.lock().unwrap());
         }
         (_, MockRes::Default) | (_, _) => {
